@@ -143,6 +143,40 @@ class Ctx:
             if "mir" in f and f["sp"][0].endswith(file_suffix):
                 yield self.body(f["id"])
 
+    def closure_site(self, closure_id):
+        """(parent body, aggregate rvalue) where the closure value is constructed."""
+        f = self.fns.get(closure_id)
+        if not f or f["kind"] != "closure":
+            return None
+        for pid in (f.get("direct_parent"), f.get("parent")):
+            if pid and pid in self.fns and "mir" in self.fns[pid]:
+                pb = self.body(pid)
+                for blk in pb.blocks:
+                    for st in blk["stmts"]:
+                        if st["k"] == "assign" and st["rv"]["k"] == "aggregate" and st["rv"].get("closure") == closure_id:
+                            return pb, st["rv"]
+        return None
+
+    def lifted_trace(self, body, op, through=None, depth=0):
+        """Origins of an operand; captured variables of a closure are resolved to their origins in the function
+        that creates the closure (recursively).  Returns set of (function id, root, path)."""
+        through = mir.TRANSPARENT if through is None else through
+        out = set()
+        if op["k"] not in ("copy", "move"):
+            return {(body.id, ("const", op.get("val") if op.get("val") is not None else op.get("repr")), ())}
+        for (r, p) in body.trace(op["place"], through):
+            if r == ("arg", 1) and body.fn["kind"] == "closure" and p and p[0].isdigit() and depth < 4:
+                site = self.closure_site(body.id)
+                if site:
+                    pb, rv = site
+                    i = int(p[0])
+                    if i < len(rv["ops"]):
+                        for (fid2, r2, p2) in self.lifted_trace(pb, rv["ops"][i], through, depth + 1):
+                            out.add((fid2, r2, tuple(p2) + tuple(p[1:])))
+                        continue
+            out.add((body.id, r, tuple(p)))
+        return out
+
     def adt(self, path):
         if path not in self.adts:
             raise AnchorMissing("ADT %s not found" % path)
